@@ -139,8 +139,9 @@ BUILTINS = {
 
 
 class Program:
-    def __init__(self, root):
+    def __init__(self, root, overlay=None):
         self.root = root
+        self.overlay = overlay or {}
         self.pkgdir = os.path.join(root, PKG)
         self.modules = {}
         found = []
@@ -156,6 +157,7 @@ class Program:
             path = os.path.join(self.pkgdir, rel + ".py")
             with open(path, encoding="utf-8") as fh:
                 src = fh.read()
+            src = self.overlay.get(rel + ".py", src)
             try:
                 mod = Module(modname(rel), PKG + "/" + rel + ".py", src)
             except SyntaxError as exc:
